@@ -56,6 +56,18 @@ Theorem C17_complete_implies_exact : forall c fs ms s rets i t,
      \/ (t_name t = MISSING_FLST /\ Forall (fun op => lenN (snd op) <= t_bs t) pk)).
 Proof. exact complete_implies_exact. Qed.
 
+(* (2') read as "a missing or resized package prevents completion": for a Complete announced transfer every
+   package number 1..n occurs in the log for this key with the announced size (the n-th may be shorter) *)
+Theorem C17_complete_needs_every_package : forall c fs ms s rets i t,
+  run c (init_st fs) ms = Ok (s, rets) ->
+  nth_error (s_transfers s) i = Some t -> t_state t = Complete ->
+  (exists m f, In m ms /\ flst_of c m = Some (t_key t, f) /\ t_name t = f_name f /\
+     forall j, 1 <= j -> j <= f_nr f ->
+       exists raw, In (j, raw) (ops_for c (t_key t) ms) /\
+                   (if j =? f_nr f then lenN raw <= f_bs f else lenN raw = f_bs f))
+  \/ t_name t = MISSING_FLST.
+Proof. exact complete_needs_every_package. Qed.
+
 (* the save command only delivers data of transfers that are Complete *)
 Theorem C17_saved_only_complete : forall c fs ms s rets i d,
   run c (init_st fs) ms = Ok (s, rets) -> saved_bytes s i = Some d ->
@@ -151,6 +163,7 @@ Qed.
 
 Print Assumptions C17_inorder_complete_exact.
 Print Assumptions C17_complete_implies_exact.
+Print Assumptions C17_complete_needs_every_package.
 Print Assumptions C17_saved_only_complete.
 Print Assumptions C17_published_states_current.
 Print Assumptions C17_autosave_confined.
